@@ -732,6 +732,14 @@ def judge_real(c, r):
                                    "(initializer flag %s instead of %s)" % (c["backend"], cn, sorted(set(map(str, (v[2] for v in vals)))), c["init"])))
             if any(v[0] != cn for v in vals):
                 bad.append(("C04", "real backend %s: call %d returned values of another call" % (c["backend"], cn)))
+            if c.get("plugins"):
+                wrong = [v for v in vals if len(v) > 2 and v[2] != (1 + v[1] % 2) * 1000 + 10 * cn]
+                if wrong:
+                    bad.append(("C01", "real backend %s, batch_size=%s: tasks are two by-value functions of one module name with "
+                                       "their own globals (constant K, mutable cell set to 10*call number): call %d returned %s for "
+                                       "task %d, the function itself computes %d" % (
+                                           c["backend"], c["batch_size"], cn, wrong[0][2], wrong[0][1],
+                                           (1 + wrong[0][1] % 2) * 1000 + 10 * cn)))
             idx = [v[1] for v in vals]
             exp = list(range(c["N"]))
             if (tf and not unp_ret) or jf is not None:
@@ -801,6 +809,12 @@ def fixed_real_cases():
             out.append(dict(base, backend=backend, n_jobs=2, exc=exc, with_block=(exc == "UnpicklableRet")))
     for backend, nj in (("threading", 2), ("threading", 3), ("sequential", 1)):
         out.append(dict(base, backend=backend, n_jobs=nj, exc="Finicky"))
+    # functions shipped BY VALUE: same module name, different global namespaces, several per batch, re-used wrappers
+    for backend in ("loky", "multiprocessing", "threading"):
+        for bsz in (4, 1):
+            out.append(dict(base, backend=backend, n_jobs=2, N=12, tfail=[], batch_size=bsz, plugins=True, reuse=3))
+            if backend != "multiprocessing":
+                out.append(dict(base, backend=backend, n_jobs=2, N=12, tfail=[], batch_size=bsz, plugins="raw", reuse=2))
     # the tasks of a failing loky call have started processes of their own: the abort kills the workers' process trees
     for managed in (False, True):
         out.append(dict(base, backend="loky", n_jobs=3, N=3, tfail=[0], with_block=managed, slow=8.0, batch_size=1, spawn=True))
@@ -841,6 +855,7 @@ def fixed_real_cases():
 def real_sampling(ctx, quick, prop, fail_rate):
     cases = real_cases(ctx.rng, (24 if quick else 200) if prop != "C09" else (0 if quick else 40), fail_rate)
     cases = [c for c in fixed_real_cases() if (fail_rate >= 0.5 or c.get("abandon") or c.get("sized") or prop == "C01")
+             and (prop == "C01" or not c.get("plugins"))
              and (prop != "C09" or c.get("fastfail") or c.get("stats_leak"))
              and (prop == "C09" or not c.get("stats_leak"))] + cases
     chunks = [cases[i::8] for i in range(8)]
